@@ -125,6 +125,12 @@ class Exec(ExprMixin, StmtMixin, CallMixin, ContractMixin):
                 continue
             abstract_self = isinstance(ty, TRef) and ty.cls in dsl.REG.classes and dsl.REG.classes[ty.cls].abstract
             env[n] = self.fresh_param(st, n, ty, exact=(i == 0 and is_method and not abstract_self))
+        if fdef.args.vararg is not None:
+            vn = fdef.args.vararg.arg
+            vty = decl.params.get(vn)
+            if vty is None:
+                raise Unsupported("contract of %s gives no type for *%s" % (qualname, vn))
+            env[vn] = self.fresh_param(st, vn, vty)         # the tuple of extra positional arguments, as a sequence
         for pre in decl.opts.get("distinct", []):
             a, b = pre
             st.assume(env[a].t != env[b].t)
